@@ -211,15 +211,38 @@ func (c *Copier) CopyReference(obj Reference) (Reference, error) {
 	if ok {
 		return newRef, nil
 	}
-	newRef = c.w.Alloc()
-	c.trans[obj] = newRef
 
-	val, err := Resolve(c.r, obj)
+	// Follow a chain of references to the object it ends in.  All references
+	// on the chain are mapped to the one copy of that object, so that the
+	// object stays shared however it is reached.
+	val, path, err := resolvePath(c.r, nil, obj, true)
 	if IsReadError(err) {
 		return 0, err
 	}
 	// a reference to a malformed or undefined source object resolves to
 	// null (PDF 2.0, 7.3.10); leave val nil and copy null in its place
+	var chain []Reference // from the last reference back to obj
+	for p := path; p != nil; p = p.Parent {
+		chain = append(chain, p.Ref)
+	}
+	if len(chain) == 0 {
+		chain = []Reference{obj}
+	}
+	known := false
+	for i := len(chain) - 1; i >= 0 && !known; i-- {
+		newRef, known = c.trans[chain[i]]
+	}
+	if !known {
+		newRef = c.w.Alloc()
+	}
+	for _, ref := range chain {
+		if _, ok := c.trans[ref]; !ok {
+			c.trans[ref] = newRef
+		}
+	}
+	if known {
+		return newRef, nil
+	}
 	trans, err := c.Copy(val)
 	if err != nil {
 		return 0, err
